@@ -71,7 +71,16 @@ pub fn gen_workloads(ctx: &Ctx, rng: &mut Rng) -> Vec<Workload> {
         g.max_value = 3 * ps as usize;
         let mut grng = rng.fork();
         let mut h = Gen::new(&mut grng, g).history();
-        let mut label = format!("reuse workload profile={} ops/tx={}", crate::gen::profile_name(profile), if i % 3 == 0 { "20-60" } else { "2-12" });
+        // a write transaction committed without any change, in the middle of the history: its header
+        // write must still be ordered before the next commit's data writes
+        if h.txs.len() >= 3 {
+            let at = 1 + (i as usize % (h.txs.len() - 1));
+            h.txs.insert(at, TxScript { ops: vec![], end: End::Commit, reopen: false });
+            if i % 2 == 0 {
+                h.txs.insert(at, TxScript { ops: vec![Op::TxBuckets], end: End::Commit, reopen: false });
+            }
+        }
+        let mut label = format!("reuse workload profile={} ops/tx={} (+empty commits)", crate::gen::profile_name(profile), if i % 3 == 0 { "20-60" } else { "2-12" });
         if i % 5 == 4 {
             // a growth workload: start from the minimum file, one big value forces an extension
             h.num_pages = 4;
@@ -423,6 +432,9 @@ fn analyse(
                             (0..(1u32 << words)).collect()
                         } else {
                             let mut m: Vec<u32> = (0..=words as u32).map(|p| (1u32 << p) - 1).collect(); // prefixes
+                            let all: u32 = (1u32 << words) - 1;
+                            m.extend((0..words as u32).map(|b| all & !(1u32 << b))); // exactly one word stale
+                            m.extend((0..words as u32).map(|b| 1u32 << b)); // exactly one word new
                             m.extend((0..=words as u32).map(|p| ((1u32 << words) - 1) & !((1u32 << p) - 1))); // suffixes
                             for _ in 0..(if thorough { 300 } else { 40 }) {
                                 m.push(rng.below(1 << words) as u32);
